@@ -35,6 +35,7 @@ class State(object):
         self.path = ''          # branch decisions taken, e.g. 'TF'
         self.dropped = None     # shared counter dict
         self.frame_stack = []
+        self.tags = set()
 
     def fork(self):
         s = State()
@@ -50,6 +51,7 @@ class State(object):
         s.path = self.path
         s.dropped = self.dropped
         s.frame_stack = list(self.frame_stack)
+        s.tags = set(self.tags)
         return s
 
     # --- assumptions and obligations
